@@ -591,6 +591,56 @@ def rule_exclusive(ck: Check, repo: Repo) -> None:
                 r.violation(q, "no candidates", f"{out}", repo.loc(fn))
 
 
+def rule_wrapping(ck: Check, repo: Repo, rid: str = "R8") -> None:
+    """_global_licensing_from_found: a lone dep5 entry is read as ReuseDep5; everything else - ONE REUSE.toml included -
+    becomes a NestedReuseTOML rooted at the project root.  The wrapper is what makes a REUSE.toml's globs relative to
+    its own directory, confines it to its subtree and names it as the source; a bare ReuseTOML for a single file that
+    is not in the root loses all three."""
+    r = ck.rule(rid, "discovered REUSE.toml files are always wrapped in a NestedReuseTOML rooted at the project root")
+    q = f"{P}._global_licensing_from_found"
+    fn = repo.func(q)
+    ck.analysed_fn(q)
+
+    class H(Hooks):
+        def atom(self, text, node, it):
+            if text == "len(found) == 1":
+                return "@single"
+            if text in ("found[0].cls == ReuseDep5", "found[0].cls is ReuseDep5"):
+                return "@first_is_dep5"
+            if re.fullmatch(r"all\((\w+)\.cls (==|is) ReuseTOML for \1 in found\)", text):
+                return "@all_toml"
+            return None
+
+    def ref(v):
+        if v("@single") and v("@first_is_dep5"):
+            return "dep5"
+        if not v("@all_toml"):
+            return "raise"
+        return "nested"
+
+    leaves = tabulate(fn, H(), ref, params=["cls", "found", "root"])
+    r.floor(3, "paths through _global_licensing_from_found", got=len(leaves))
+    for d, leaf, exp in leaves:
+        out = leaf.outcome
+        if out[0] == "raise":
+            got = "raise"
+        elif out[1].startswith("ReuseDep5.from_file(found[0].path)"):
+            got = "dep5"
+        elif re.fullmatch(r"NestedReuseTOML\(reuse_tomls=\[ReuseTOML\.from_file\((\w+)\.path\) for \1 in found\], source=str\(root\)\)", out[1]) or \
+                re.fullmatch(r"NestedReuseTOML\(\[ReuseTOML\.from_file\((\w+)\.path\) for \1 in found\], str\(root\)\)", out[1]):
+            got = "nested"
+        else:
+            got = out[1][:80]
+        r.instance("wrap:" + show_valuation(d), {"valuation": show_valuation(d), "result": got})
+        if got != exp:
+            r.violation(q, f"[{show_valuation(d)}] global licensing object",
+                        f"returns {got}, the specification says {exp}"
+                        + (" - a REUSE.toml that is not wrapped is matched against root-relative paths, applies outside its own"
+                           " directory and reports 'REUSE.toml' as its source" if exp == "nested" else ""),
+                        f"{repo.module(P.rsplit('.', 1)[0]).rel}:{leaf.trace[-1] if leaf.trace else fn.lineno}", {"valuation": d})
+
+
+
 def run(ck: Check, repo: Repo) -> None:
     ck.explanation = (
         "The precedence rules are a finite table; it is extracted from Project.reuse_info_of by path-sensitive"
@@ -608,6 +658,7 @@ def run(ck: Check, repo: Repo) -> None:
     rule_nesting(ck, repo)
     rule_dep5(ck, repo)
     rule_exclusive(ck, repo)
+    rule_wrapping(ck, repo)
     # which REUSE.toml files are sources at all: discovery uses the same coverage options as the file walk (shared with C03-R4)
     from . import c03
     r7 = ck.rule("R7", "REUSE.toml discovery receives the project's coverage options unchanged")
